@@ -32,14 +32,21 @@ static struct cq g_parent;
 static struct block g_block;
 static struct bientry g_entry;
 
-/* ---- environment: any number of steps of other threads (rely, mcq.h).  VX_ASSUME justified by mcq.lemma.* : every
- * transition of another thread keeps MCQ_INV and this thread's MCQ_ME, and the words only grow ---- */
+/* ---- environment: any number of steps of other threads (rely, mcq.h).  VX_ASSUME justified by unit mcq.lemma.steps: every
+ * transition of another thread keeps MCQ_INV and this thread's MCQ_ME, head and overcommit only grow; the 2^60 bounds are
+ * A-BOUNDED (fewer than 2^60 steps of other threads while one call runs) ---- */
+#ifndef MCQ_QUIESCENT
+#define MCQ_QUIESCENT 0              /* unit instance parameter: 1 = no other thread runs during the call */
+#endif
 static void mcq_interfere(void)
 {
-  if (X.quiescent) return;
-  if (nondet_bool())
+#if MCQ_QUIESCENT
+  return;
+#else
   {
-    /* the new state is built from nondeterministic increments and counts (same set of states as "havoc, then assume the
+    /* no `if (nondet)` around the havoc: the rely is reflexive (zero increments, same counts), so "nothing happened" is one
+     * of the havocked states; X.interfered records whether anything did happen.
+     * the new state is built from nondeterministic increments and counts (same set of states as "havoc, then assume the
      * rely", but in a form the SAT back end propagates instead of searching) */
     struct mcq_shared n;
     struct mcq_thread m2 = me;
@@ -55,12 +62,13 @@ static void mcq_interfere(void)
       m2.Ubm = nondet_u64();
       m2.D = (index_t) ((index_t) (me.t - me.o) - n.H - m2.Ubm);
     }
-    VX_ASSUME(MCQ_GROW(G, n) && MCQ_NEAR(X.G0, n));
+    VX_ASSUME((index_t) (n.H - X.G0.H) < MCQ_BIG);
     VX_ASSUME(MCQ_INV(n));
     VX_ASSUME(MCQ_ME(n, m2));
+    if (n.T != G.T || n.H != G.H || n.C != G.C || n.O != G.O) X.interfered = true;
     G = n; me = m2;
-    X.interfered = true;
   }
+#endif
 }
 
 static index_t idx_load(struct prod *self, int w)
@@ -201,12 +209,14 @@ void harness(void)
   struct prod p; p.parent = &g_parent;
   G.T = nondet_u64(); G.H = nondet_u64(); G.C = nondet_u64(); G.O = nondet_u64(); G.U = nondet_u64(); G.Ub = nondet_u64();
   me.phase = PH_IDLE; me.t = 0; me.o = 0; me.o_valid = false; me.tail = 0; me.tail_valid = false; me.above = false; me.Ubm = 0; me.D = 0;
-  X.quiescent = nondet_bool(); X.interfered = false; X.seq = 0; X.seq_o = 0; X.seq_ticket = 0; X.seq_tail = 0; X.seq_claim = 0;
+  X.quiescent = MCQ_QUIESCENT; X.interfered = false; X.seq = 0; X.seq_o = 0; X.seq_ticket = 0; X.seq_tail = 0; X.seq_claim = 0;
   X.tickets = 0; X.claims = 0; X.registers = 0;
   X.G0 = G;
   size_t r = size_approx(&p);
   if (r == 0) VX_REACH("zero"); else VX_REACH("positive");
+#if !MCQ_QUIESCENT
   if (r == 0 && X.interfered) VX_REACH("zero_after_interference");
+#endif
 }
 #endif
 
@@ -243,7 +253,7 @@ void harness(void)
   elem_t out = nondet_int();
   G.T = nondet_u64(); G.H = nondet_u64(); G.C = nondet_u64(); G.O = nondet_u64(); G.U = nondet_u64(); G.Ub = nondet_u64();
   me.phase = PH_IDLE; me.t = 0; me.o = 0; me.o_valid = false; me.tail = 0; me.tail_valid = false; me.above = false; me.Ubm = 0; me.D = 0;
-  X.quiescent = nondet_bool(); X.interfered = false; X.seq = 0; X.seq_o = 0; X.seq_ticket = 0; X.seq_tail = 0; X.seq_claim = 0;
+  X.quiescent = MCQ_QUIESCENT; X.interfered = false; X.seq = 0; X.seq_o = 0; X.seq_ticket = 0; X.seq_tail = 0; X.seq_claim = 0;
   X.tickets = 0; X.claims = 0; X.registers = 0; X.claimed = 0; X.T_at_claim = 0;
   X.cfg_noexcept_assign = nondet_bool(); X.vidx = nondet_u64();
   X.entry_lookups = 0; X.destroyed = 0; X.set_empty = 0; X.entry_cleared = 0; X.freed = 0; X.set_empty_result = false;
@@ -252,15 +262,19 @@ void harness(void)
   index_t h0 = G.H;
   bool r = dequeue(&p, &out);
   if (r) VX_REACH("dequeued"); else VX_REACH("nothing");
-  if (r && X.interfered) VX_REACH("dequeued_after_interference");
-  if (r && X.quiescent) VX_REACH("dequeued_quiescent");
-  if (r && X.claimed != h0) VX_REACH("claimed_a_later_index");
   if (r && X.claimed == X.vidx) VX_REACH("victim_slot");
   if (r && X.cfg_noexcept_assign) VX_REACH("noexcept_path");
   if (r && !X.cfg_noexcept_assign) VX_REACH("guard_path");
   if (r && X.freed == 1) VX_REACH("block_released");
   if (!r && X.tickets == 0) VX_REACH("looked_empty_no_ticket");
+#if MCQ_QUIESCENT
+  if (r && X.claimed == h0) VX_REACH("dequeued_quiescent");
+#else
+  if (r && X.interfered) VX_REACH("dequeued_after_interference");
+  if (r && X.claimed != h0) VX_REACH("claimed_a_later_index");
   if (!r && X.registers == 1) VX_REACH("overcommitted");
-  if (r && !me.above && X.claims == 1) VX_REACH("claimed_below_a_larger_ticket");
+  if (r && !me.above) VX_REACH("claimed_below_a_larger_ticket");
+  if (r && me.above) VX_REACH("claimed_as_largest_ticket");
+#endif
 }
 #endif
